@@ -29,19 +29,43 @@ def ty_range(ty):
 class AV:
     """abstract integer: closed interval + taint.  `w` marks a value whose range was widened at a loop head: its magnitude
     is an artefact of the analysis, not something the caller chose, so it is never reported (sticky, clears the taint)"""
-    __slots__ = ("lo", "hi", "t", "why", "w", "x")
+    __slots__ = ("lo", "hi", "t", "why", "w", "x", "_il", "_ih")
 
-    def __init__(self, lo, hi, t=False, why="", w=False, x=None):
+    def __init__(self, lo, hi, t=False, why="", w=False, x=None, il=None, ih=None):
         # x: None = the bounds are an over-approximation; a frozenset of source names = EXACT: both bounds are attained by some
         # choice of the named caller-controlled sources (independent of every other source)
         self.lo, self.hi, self.t, self.why, self.w = lo, hi, (t and not w), why, w
         self.x = None if w else (frozenset() if (x is None and lo == hi) else x)
+        # attained watermarks of an inexact value (a must-information beside the may-interval): some input makes the value
+        # <= il, some input makes it >= ih; needs no independence of the operands (see arith)
+        if w or self.x is not None:
+            il = ih = None
+        self._il = il if (il is not None and lo <= il <= hi) else None
+        self._ih = ih if (ih is not None and lo <= ih <= hi) else None
+
+    @property
+    def wm(self):
+        """(il, ih): the value is <= il for some input and >= ih for some input (None: not known)"""
+        return (self.lo, self.hi) if self.x is not None else (self._il, self._ih)
+
+    def re(self, lo, hi):
+        """the same value with a refined / clamped range"""
+        return AV(lo, hi, self.t, self.why, self.w, self.x, self._il, self._ih)
+
+    def tr(self, lo, hi, f, decreasing=False):
+        """the image of the value under a monotone function f (range given by the caller)"""
+        il, ih = self.wm
+        a, b = (None if il is None else f(il)), (None if ih is None else f(ih))
+        if decreasing:
+            a, b = b, a
+        return AV(lo, hi, self.t, self.why, self.w, self.x, a, b)
 
     def __repr__(self):
-        return "[%s,%s]%s%s%s" % (self.lo, self.hi, "T" if self.t else "", "W" if self.w else "", "x" if self.x is not None else "")
+        return "[%s,%s]%s%s%s%s" % (self.lo, self.hi, "T" if self.t else "", "W" if self.w else "", "x" if self.x is not None else "",
+                                    "~(%s,%s)" % (self._il, self._ih) if (self._il is not None or self._ih is not None) else "")
 
     def key(self):
-        return (self.lo, self.hi, self.t, self.w, self.x)
+        return (self.lo, self.hi, self.t, self.w, self.x, self._il, self._ih)
 
 
 class Fl:
@@ -108,8 +132,11 @@ def join(a, b):
     if a is None or b is None:
         return None
     if isinstance(a, AV) and isinstance(b, AV):
+        ils = [v for v in (a.wm[0], b.wm[0]) if v is not None]
+        ihs = [v for v in (a.wm[1], b.wm[1]) if v is not None]
         return AV(min(a.lo, b.lo), max(a.hi, b.hi), a.t or b.t, a.why if a.t else b.why, a.w or b.w,
-                  (a.x | b.x) if (a.x is not None and b.x is not None) else None)
+                  (a.x | b.x) if (a.x is not None and b.x is not None) else None,
+                  min(ils) if ils else None, max(ihs) if ihs else None)
     if isinstance(a, Fl) and isinstance(b, Fl):
         bounded = None not in (a.lo, a.hi, b.lo, b.hi)
         return Fl(a.t or b.t, a.why if a.t else b.why, None, a.w or b.w,
@@ -130,9 +157,9 @@ def join(a, b):
     if isinstance(a, Lazy) and isinstance(b, Lazy) and a.ty == b.ty:
         if a.mode == b.mode:
             return a
-        if a.t or b.t:
-            return Lazy(a.ty, "T", a.why if a.t else b.why)     # valid joined with unknown: caller-controlled, unbounded
-        return Lazy(a.ty, "U", "")
+        if "T" in (a.mode, b.mode) and "U" not in (a.mode, b.mode):
+            return Lazy(a.ty, "T", a.why if a.mode == "T" else b.why)     # valid or chosen by the caller: caller-controlled
+        return Lazy(a.ty, "U", "")       # one side of unknown provenance: nothing is claimed about the join
     if isinstance(a, Lazy) and isinstance(b, Rec):
         return _join_lazy_rec(a, b)
     if isinstance(b, Lazy) and isinstance(a, Rec):
@@ -159,13 +186,7 @@ def _join_lazy_rec(l, r):
         e = _ENG.expand(l)
         if e is not None:
             return join(e, r)
-    if _rec_tainted(r):
-        why = ""
-        for v in r.f.values():
-            if getattr(v, "t", False):
-                why = v.why
-        return Lazy(l.ty, "T", why)
-    return Lazy(l.ty, "U", "")
+    return Lazy(l.ty, "U", "")           # not expandable: nothing is claimed about the join
 
 
 # ---- type knowledge of the repository -------------------------------------------------------------------------------
@@ -471,7 +492,7 @@ class Engine:
         if r is None:
             return None
         self.stats["monotone_folds"] = self.stats.get("monotone_folds", 0) + 1
-        return AV(r[0], r[1], a.t, a.why, a.w, a.x)
+        return a.re(r[0], r[1])
 
     def promoted_value(self, f, idx, subst):
         key = (f.path, idx, tuple(sorted(subst.items())))
@@ -541,7 +562,7 @@ def widen(old, new, ty):
     if isinstance(old, AV) and isinstance(new, AV):
         if new.lo < old.lo or new.hi > old.hi:
             r = ty_range(ty) or (min(old.lo, new.lo), max(old.hi, new.hi))
-            return AV(min(r[0], new.lo), max(r[1], new.hi), new.t, new.why, new.w, new.x)
+            return new.re(min(r[0], new.lo), max(r[1], new.hi))
     return new
 
 
@@ -766,7 +787,45 @@ class FnAnalysis:
             if ok and base not in ("Add", "Sub", "Mul", "Div", "Rem"):
                 ok = False
             r_.x = (a.x | b.x) if ok else (frozenset() if r_.lo == r_.hi else None)
+            if r_.x is None:
+                il, ih = self._arith_wm(base, a, b)
+                if il is not None or ih is not None:
+                    r_ = AV(r_.lo, r_.hi, r_.t, r_.why, r_.w, None, il, ih)
         return r_
+
+    @staticmethod
+    def _arith_wm(base, a, b):
+        """watermarks of a op b.  If some input makes a >= a.ih, then for that input b >= b.lo whatever b depends on, so
+        a + b >= a.ih + b.lo: no independence is needed (the other operand is taken at its worst sound bound)."""
+        (ail, aih), (bil, bih) = a.wm, b.wm
+        lo_c, hi_c = [], []
+        if base == "Add":
+            if aih is not None: hi_c.append(aih + b.lo)
+            if bih is not None: hi_c.append(a.lo + bih)
+            if ail is not None: lo_c.append(ail + b.hi)
+            if bil is not None: lo_c.append(a.hi + bil)
+        elif base == "Sub":
+            if aih is not None: hi_c.append(aih - b.hi)
+            if bil is not None: hi_c.append(a.lo - bil)
+            if ail is not None: lo_c.append(ail - b.lo)
+            if bih is not None: lo_c.append(a.hi - bih)
+        elif base == "Mul":
+            for p, q, (pil, pih) in ((a, b, (ail, aih)), (b, a, (bil, bih))):
+                if q.lo == q.hi:
+                    c = q.lo
+                    if c > 0:
+                        if pih is not None: hi_c.append(pih * c)
+                        if pil is not None: lo_c.append(pil * c)
+                    elif c < 0:
+                        if pil is not None: hi_c.append(pil * c)
+                        if pih is not None: lo_c.append(pih * c)
+                elif q.lo >= 0 and p.lo >= 0:
+                    if pih is not None: hi_c.append(pih * q.lo)
+                    if pil is not None: lo_c.append(pil * q.hi)
+        elif base == "Div" and b.lo == b.hi and b.lo > 0:
+            if aih is not None: hi_c.append(_tdiv(aih, b.lo))
+            if ail is not None: lo_c.append(_tdiv(ail, b.lo))
+        return (min(lo_c) if lo_c else None), (max(hi_c) if hi_c else None)
 
     def _arith(self, op, a, b, ty):
         t = a.t or b.t
@@ -954,7 +1013,7 @@ class FnAnalysis:
             if ck == "IntToInt":
                 r = ty_range(tty)
                 if isinstance(v, AV) and r and v.lo >= r[0] and v.hi <= r[1]:
-                    val = AV(v.lo, v.hi, v.t, v.why, v.w, v.x)
+                    val = v.re(v.lo, v.hi)
                     p = M.op_place(op)
                     if p is not None and not M.place_proj(place) and self.b.locals[l][1] is None:
                         self._pending_alias = self.resolve_place(env, p)
@@ -1016,7 +1075,7 @@ class FnAnalysis:
         elif kind == "un":
             op, a, ty = rv[1], self.operand(env, rv[2]), self.sty(rv[3])
             if op == "Neg" and isinstance(a, AV):
-                val = self.clamp_ty(AV(-a.hi, -a.lo, a.t, a.why, a.w, a.x), ty)
+                val = self.clamp_ty(a.tr(-a.hi, -a.lo, lambda v: -v, True), ty)
             elif op == "Neg" and isinstance(a, Fl):
                 val = Fl(a.t, a.why, None, a.w, a.x, lo=None if a.hi is None else -a.hi, hi=None if a.lo is None else -a.lo)
             elif op == "Not":
@@ -1101,9 +1160,10 @@ class FnAnalysis:
             return
         else:
             return
+        wl, wh = v.wm if isinstance(v, AV) else ((lo, hi) if getattr(v, "x", None) is not None else (None, None))
         if lo >= r[0] and hi <= r[1]:
             self.site_results[skey] = (0, None)
-        elif getattr(v, "t", False) and getattr(v, "x", None) is not None:
+        elif getattr(v, "t", False) and ((wh is not None and wh > r[1]) or (wl is not None and wl < r[0])):
             what = "saturates" if ck == "FloatToInt" else "wraps"
             self.site_results[skey] = (2, ("narrowing", "a caller-controlled %s value in %s is cast to %s, which %s outside [%s, %s]: the "
                                           "result silently differs from the exact value; caller-controlled through %s" %
@@ -1158,6 +1218,11 @@ class FnAnalysis:
                     if blamed and not ex:
                         blamed = False
                         self.eng.stats["inexact_possible"] = self.eng.stats.get("inexact_possible", 0) + 1
+                    # ... or the result's attained watermark is itself outside the type (independence-free)
+                    wl, wh = res.wm
+                    if not blamed and ((wh is not None and wh > r[1]) or (wl is not None and wl < r[0])):
+                        blamed = True
+                        self.eng.stats["watermark_blames"] = self.eng.stats.get("watermark_blames", 0) + 1
                 status, text = verdict(res.lo >= r[0] and res.hi <= r[1], blamed,
                                        "`%s` on %s can overflow: operands range over %s and %s; caller-controlled through %s" %
                                        ({"Add": "+", "Sub": "-", "Mul": "*"}[op], ty, _fmt(a), _fmt(b),
@@ -1289,7 +1354,7 @@ class FnAnalysis:
                 if val < dv.lo or val > dv.hi:
                     outs.append((tgt, None))
                     continue
-                self.apply_refinement(e2, on, AV(val, val, dv.t, dv.why, dv.w, dv.x))
+                self.apply_refinement(e2, on, dv.re(val, val))
             outs.append((tgt, e2))
         # the otherwise branch is taken only by values no arm lists
         if isinstance(dv, AV) and dv.hi - dv.lo < 64 and all(v in {a[0] for a in arms} for v in range(dv.lo, dv.hi + 1)):
@@ -1354,15 +1419,15 @@ class FnAnalysis:
                     nl, nh = max(x.lo, lo), min(x.hi, h)
                     if nl > nh:
                         return None
-                    self.apply_refinement(env, xop, AV(nl, nh, x.t, x.why, x.w, x.x))
+                    self.apply_refinement(env, xop, x.re(nl, nh))
                 else:
                     # outside the range: only refinable at the ends
                     if x.lo >= lo and x.hi <= h:
                         return None
                     if x.lo >= lo:
-                        self.apply_refinement(env, xop, AV(max(x.lo, h + 1), x.hi, x.t, x.why, x.w, x.x))
+                        self.apply_refinement(env, xop, x.re(max(x.lo, h + 1), x.hi))
                     elif x.hi <= h:
-                        self.apply_refinement(env, xop, AV(x.lo, min(x.hi, lo - 1), x.t, x.why, x.w, x.x))
+                        self.apply_refinement(env, xop, x.re(x.lo, min(x.hi, lo - 1)))
             return env
         return env
 
@@ -1386,7 +1451,7 @@ class FnAnalysis:
         if ab is not None:
             x = self.get_path(env, ab[0], ab[1])
             if isinstance(x, AV):
-                self.set_place(env, ab, AV(max(x.lo, -av.hi), min(x.hi, av.hi), x.t, x.why, x.w, x.x))
+                self.set_place(env, ab, x.re(max(x.lo, -av.hi), min(x.hi, av.hi)))
 
     # ---- calls -----------------------------------------------------------------------------------------------------------
     def call(self, bb, env, t):
@@ -1525,7 +1590,7 @@ class FnAnalysis:
             if inv:
                 if isinstance(cur, AV):
                     lo, hi = max(cur.lo, inv[0]), min(cur.hi, inv[1])
-                    new = AV(lo, hi, cur.t, cur.why, cur.w, cur.x) if lo <= hi else AV(inv[0], inv[1], cur.t, cur.why, cur.w, cur.x)
+                    new = cur.re(lo, hi) if lo <= hi else cur.re(inv[0], inv[1])
                 else:
                     new = AV(inv[0], inv[1], True, "field `%s` of a valid %s" % (name, ty.rsplit("::", 1)[-1]))
             elif finv:
@@ -1605,8 +1670,8 @@ class FnAnalysis:
         if name in ("from", "into", "try_from", "try_into") and a0 is not None and (path.startswith("core::convert::")):
             if isinstance(a0, AV) and r:
                 if a0.lo >= r[0] and a0.hi <= r[1]:
-                    return AV(a0.lo, a0.hi, a0.t, a0.why, a0.w, a0.x)
-                return AV(r[0], r[1], a0.t, a0.why, a0.w, a0.x)
+                    return a0.re(a0.lo, a0.hi)
+                return a0.re(r[0], r[1])
             if isinstance(a0, AV) and dty in ("f64", "f32"):
                 return Fl(a0.t, a0.why, None, a0.w, a0.x, lo=a0.lo, hi=a0.hi)
             if isinstance(a0, Fl) and dty in ("f64", "f32"):
@@ -1619,8 +1684,8 @@ class FnAnalysis:
                 inner = re.match(r"core::result::Result<([^,]+),", dty)
                 ir = ty_range(inner.group(1)) if inner else None
                 if ir:
-                    return Rec({0: AV(max(a0.lo, ir[0]), min(a0.hi, ir[1]), a0.t, a0.why, a0.w, a0.x) if a0.hi >= ir[0] and a0.lo <= ir[1]
-                                else AV(ir[0], ir[1], a0.t, a0.why, a0.w, a0.x)})
+                    return Rec({0: a0.re(max(a0.lo, ir[0]), min(a0.hi, ir[1])) if a0.hi >= ir[0] and a0.lo <= ir[1]
+                                else a0.re(ir[0], ir[1])})
             return a0 if isinstance(a0, (Lazy, Rec, Fl)) and base_ty(dty) == base_ty(getattr(a0, "ty", dty)) else eng.top(dty, getattr(a0, "t", False), getattr(a0, "why", ""))
         if name == "new" and "RangeInclusive" in path and len(args) == 2:
             return Rec({"start": a0, "end": a1, "incl": AV(1, 1)})
@@ -1630,7 +1695,7 @@ class FnAnalysis:
             skey = ("overflow:abs", getattr(self, "cur_bb", 0) * 100 + self.cast_no)
             if a0.lo > r[0]:
                 self.site_results[skey] = (0, None)
-            elif a0.t and a0.x is not None:
+            elif a0.t and a0.wm[0] is not None and a0.wm[0] <= r[0]:
                 self.site_results[skey] = (2, ("overflow:abs", "abs() of %s can overflow: the operand ranges over %s and may be %s::MIN; "
                                               "caller-controlled through %s" % (dty, _fmt(a0), dty, a0.why), M.line_of(t.get("line")),
                                               "overflow:abs"))
@@ -1665,7 +1730,7 @@ class FnAnalysis:
         if name == "div_euclid" and isinstance(a0, AV) and isinstance(a1, AV) and a1.lo > 0:
             if a1.lo == a1.hi:
                 # floor division by a positive constant is monotone: exact bounds stay exact
-                return AV(a0.lo // a1.lo, a0.hi // a1.lo, a0.t, a0.why, a0.w, a0.x)
+                return a0.tr(a0.lo // a1.lo, a0.hi // a1.lo, lambda v: v // a1.lo)
             return AV(-((-a0.lo) // a1.lo) - 1 if a0.lo < 0 else a0.lo // a1.hi, a0.hi // a1.lo if a0.hi >= 0 else -((-a0.hi) // a1.hi),
                       a0.t or a1.t, a0.why if a0.t else a1.why, a0.w or a1.w)
         if name == "clamp" and len(args) == 3 and all(isinstance(x, (AV, Fl)) for x in args) \
@@ -1729,14 +1794,14 @@ class FnAnalysis:
             return Rec({("variant", "Ok"): Rec({0: mk()}), ("variant", "Err"): Rec({0: mk()})})
         if name in ("div_rem_euclid", "div_mod_floor") and isinstance(a0, AV) and isinstance(a1, AV) and a1.lo > 0:
             if a1.lo == a1.hi:
-                q = AV(a0.lo // a1.lo, a0.hi // a1.lo, a0.t, a0.why, a0.w, a0.x)
+                q = a0.tr(a0.lo // a1.lo, a0.hi // a1.lo, lambda v: v // a1.lo)
             else:
                 q = self.arith("Div", a0, a1, None) if a0.lo >= 0 else AV(-((-a0.lo) // a1.lo) - 1, max(a0.hi, 0) // a1.lo, a0.t or a1.t,
                                                                              a0.why if a0.t else a1.why, a0.w or a1.w)
             rem = AV(0, a1.hi - 1, a0.t or a1.t, a0.why if a0.t else a1.why, a0.w or a1.w,
                      a0.x if (a1.lo == a1.hi and a0.hi - a0.lo >= a1.lo) else None)
             if a0.lo >= 0 and a0.hi < a1.lo:
-                rem = AV(a0.lo, a0.hi, a0.t, a0.why, a0.w, a0.x)
+                rem = a0.re(a0.lo, a0.hi)
             return Rec({0: q, 1: rem})
         if name == "default" and "Default" in path:
             if r:
@@ -1770,7 +1835,16 @@ class FnAnalysis:
             if name == "unwrap_or_default":
                 if isinstance(pl, AV):
                     return join(pl, AV(0, 0))
-                return pl if isinstance(pl, Fl) else eng.top(dty, "T" if _t(a0) else "U", _why(a0))
+                if isinstance(pl, Fl):
+                    return pl
+                # the type's own Default (a derived all-zero record) joined with the payload; a value nobody chose otherwise
+                dpath = "<%s as core::default::Default>::default" % dty
+                if pl is not None and dpath in eng.fns:
+                    dv = eng.call_fn(dpath, [], self.stack, {})
+                    j = join(pl, dv) if dv is not None else None
+                    if j is not None:
+                        return j
+                return eng.top(dty, "U", "")
             if name == "unwrap_or_else":
                 return eng.top(dty, "T" if _t(pl) or _t(a0) else "U", _why(pl, a0))
             return pl if pl is not None else eng.top(dty, "T" if _t(a0) else "U", _why(a0))
@@ -1852,7 +1926,7 @@ class FnAnalysis:
                 return AV(r[0], r[1], a0.t, a0.why, a0.w, a0.x)
             if isinstance(a0, AV) and dty in ("f64", "f32"):
                 return Fl(a0.t, a0.why, None, a0.w, a0.x, lo=a0.lo, hi=a0.hi)
-            return a0 if not (isinstance(a0, AV) and r and (a0.lo < r[0] or a0.hi > r[1])) else AV(r[0], r[1], a0.t, a0.why, a0.w, a0.x)
+            return a0 if not (isinstance(a0, AV) and r and (a0.lo < r[0] or a0.hi > r[1])) else a0.re(r[0], r[1])
         if name in ("len",):
             return AV(0, (1 << 63) - 1)
         if name in ("saturating_add", "saturating_sub", "saturating_mul", "checked_add", "checked_sub", "checked_mul") \
@@ -1976,25 +2050,25 @@ def _refine_cmp(op, a, b):
         lo, hi = max(a.lo, b.lo), min(a.hi, b.hi)
         if lo > hi:
             return None, None
-        return AV(lo, hi, a.t, a.why, a.w, a.x), AV(lo, hi, b.t, b.why, b.w, b.x)
+        return a.re(lo, hi), b.re(lo, hi)
     if op == "Ne":
         if a.lo == a.hi == b.lo == b.hi:
             return None, None
         na, nb = a, b
         if b.lo == b.hi:
             if a.lo == b.lo:
-                na = AV(a.lo + 1, a.hi, a.t, a.why, a.w, a.x)
+                na = a.re(a.lo + 1, a.hi)
             elif a.hi == b.lo:
-                na = AV(a.lo, a.hi - 1, a.t, a.why, a.w, a.x)
+                na = a.re(a.lo, a.hi - 1)
         return na, nb
     if op == "Lt":
         if a.lo >= b.hi:
             return None, None
-        return AV(a.lo, min(a.hi, b.hi - 1), a.t, a.why, a.w, a.x), AV(max(b.lo, a.lo + 1), b.hi, b.t, b.why, b.w, b.x)
+        return a.re(a.lo, min(a.hi, b.hi - 1)), b.re(max(b.lo, a.lo + 1), b.hi)
     if op == "Le":
         if a.lo > b.hi:
             return None, None
-        return AV(a.lo, min(a.hi, b.hi), a.t, a.why, a.w, a.x), AV(max(b.lo, a.lo), b.hi, b.t, b.why, b.w, b.x)
+        return a.re(a.lo, min(a.hi, b.hi)), b.re(max(b.lo, a.lo), b.hi)
     if op == "Gt":
         nb, na = _refine_cmp("Lt", b, a)
         return na, nb
